@@ -2221,11 +2221,12 @@ def simplify_flips_inequality(p, ipt):
 
 
 def sympy_form_overflows(p, ipt):
-    """True if sympy's own form of the (scalar, user-function free) formula - parsed and simplified by sympy alone, no
-    py-pde involved - evaluates to a non-finite number at point `ipt` (where the reference value is finite: the caller
-    asks only for compared points): without real assumptions sympy evaluates `Abs(exp(-tanh(250*x)))` to
-    `exp(-sinh(500*re(x))/(2*cos(250*im(x))**2 + cosh(500*re(x)) - 1))`, which is inf/inf for x > 1.42"""
-    if p["rank"] != 0 or not isinstance(p.get("ast"), dict) or ipt is None or p.get("ufuncs"):
+    """True if sympy's own form of the scalar formula - parsed and simplified by sympy alone and evaluated with numpy
+    (user functions and py-pde's special functions as plain Python callables), no py-pde involved - is a non-finite
+    number at point `ipt` (where the reference value is finite: the caller asks only for compared points).  Without real
+    assumptions sympy evaluates `Abs(exp(-tanh(250*x)))` to `exp(-sinh(500*re(x))/(2*cos(250*im(x))**2 +
+    cosh(500*re(x)) - 1))`, which is inf/inf for x > 1.42."""
+    if p["rank"] != 0 or not isinstance(p.get("ast"), dict) or ipt is None or "idx" in X.kinds(p["ast"]):
         return False
     try:
         import warnings
@@ -2235,15 +2236,19 @@ def sympy_form_overflows(p, ipt):
 
         used = X.symbols(p["ast"])
         env = {n: v for n, v in env_of(p, ipt).items() if n in used}
-        if any(isinstance(v, (list, tuple)) for v in env.values()) or X.kinds(p["ast"]) & {"idx", "heav1", "heav2", "call2:hypot"}:
+        if any(isinstance(v, (list, tuple)) for v in env.values()):
             return False
         names = sorted(env)
         syms = {n: sympy.Symbol(n) for n in names}
-        expr = sympy.simplify(sympy.parse_expr(p["texts"], local_dict=dict(syms)))
+        ufs = _ufunc_objects(p, "numpy")
+        loc = dict(syms, heaviside=sympy.Heaviside, hypot=sympy.Function("hypot"))
+        loc.update({n: sympy.Function(n) for n in ufs})
+        expr = sympy.simplify(sympy.parse_expr(p["texts"], local_dict=loc))
+        special = {"re": np.real, "im": np.imag, "hypot": np.hypot, "erf": np.vectorize(math.erf),
+                   "Heaviside": lambda x, h=0.5: np.heaviside(x, h)}
         with warnings.catch_warnings():
             warnings.simplefilter("ignore")
-            v1 = complex(sympy.lambdify([syms[n] for n in names], expr, modules=[{"re": np.real, "im": np.imag}, "numpy"])(
-                *[env[n] for n in names]))
+            v1 = complex(sympy.lambdify([syms[n] for n in names], expr, modules=[ufs, special, "numpy"])(*[env[n] for n in names]))
         return not bool(np.isfinite(v1))
     except Exception:           # best effort, as above
         return False
@@ -2339,12 +2344,17 @@ def derivative_status(p, mode, ans, ipt, comp, route, cache, refs, texts, observ
 def shrink_failures(ctx):
     """shrink the expression of the first failure of each (leg, what) with the numpy pipeline as
     the system under test and Python's eval as the oracle"""
+    import warnings
+
+    warnings.filterwarnings("ignore")       # overflow warnings of the generated functions (main process)
     seen = set()
     for mf in ctx.monitor_failures:
         k = (mf["leg"], mf["what"])
         c = mf["case"]
         if k in seen or c.get("kind") not in ("scalar", "step0") or c.get("rank") != 0:
             continue
+        if (mf.get("key") or {}).get("call_site"):
+            continue                # attributed to a finding with a narrow key: the attribution is the explanation
         seen.add(k)
         try:
             small = shrink_case(c)
